@@ -41,6 +41,12 @@ func init() {
 	for i, m := range Methods {
 		methodIndexMap[m] = 1 << i
 	}
+
+	// 预先生成所有的组合，之后对 methodIndexes 只读不写，
+	// 保证新对象的 OPTIONS * 有值，也保证多个实例并发操作时的安全。
+	for i := range 1 << len(Methods) {
+		buildMethodIndexes(i)
+	}
 }
 
 type methodIndexEntity struct {
